@@ -484,7 +484,7 @@ file_error:
         goto file_error;
     }
 
-    data = xmalloc(sbuf.st_size + 1);
+    data = xmalloc(sbuf.st_size + 2);
     nbr = fread(data, sbuf.st_size, 1, file);
     if (nbr < 1) {
         parse->c_function = "fread";
@@ -494,7 +494,9 @@ file_error:
         longjmp(parse->env, PARSE_SYSTEM_ERROR);
     }
 
-    data[sbuf.st_size] = '\0';
+    /* Terminate the last entry even if the file does not end in a newline. */
+    data[sbuf.st_size] = '\n';
+    data[sbuf.st_size + 1] = '\0';
     fclose(file);
     parse->line_num = 1;
     return data;
@@ -775,6 +777,9 @@ static void conf_parse_entry(struct conf_parse *parse, struct conf_node_object *
             }
             conf_set_string_list_value(node, &new_value);
             string_vector_clear_int(&new_value);
+        } else if (ch == '\0') {
+            /* Nothing follows the value; do not back up over it. */
+            longjmp(parse->env, PARSE_PREMATURE_EOF);
         } else {
             struct conf_node_inaddr *node;
             char *service;
